@@ -1,6 +1,7 @@
 package props
 
 import (
+	"gorgonia.org/tensor"
 	"testing"
 
 	"pgregory.net/rapid"
@@ -67,6 +68,26 @@ func withMode(rt *rapid.T, c *EWCase, mode string, d DT) *EWCase {
 	switch mode {
 	case "reuse", "incr":
 		c.Dst = genDst(rt, c.A.Shape, d, "dst")
+		if n := prod(c.A.Shape); n >= 2 && len(c.A.Shape) >= 1 && rapid.IntRange(0, 5).Draw(rt, "reshapedst") == 0 {
+			// a destination of another shape with as many elements (the library reshapes it), possibly with a
+			// lazy transposition pending: its elements count in their logical row-major order
+			alt := []int{n}
+			if len(c.A.Shape) >= 2 && rapid.Bool().Draw(rt, "altrev") {
+				alt = make([]int, len(c.A.Shape))
+				for i, dd := range c.A.Shape {
+					alt[len(alt)-1-i] = dd
+				}
+			} else if len(c.A.Shape) == 1 && n%2 == 0 {
+				alt = []int{2, n / 2}
+			}
+			if !eqInts(alt, c.A.Shape) && !tensor.Shape(alt).Eq(tensor.Shape(c.A.Shape)) { // (n) ~ (n,1) ~ (1,n) are "equal" shapes to the library
+				c.Dst.Shape = alt
+				c.Dst.L = Layout{Root: "rm"}
+				if len(alt) >= 2 && rapid.Bool().Draw(rt, "altT") {
+					c.Dst.L.Steps = []LStep{{Op: "T", Perm: revPerm(len(alt))}}
+				}
+			}
+		}
 	case "reuseB":
 		if c.B == nil {
 			c.Mode = "reuseA"
